@@ -224,7 +224,7 @@ pub fn auth_matrix(w: &World, h: &Hist, book: &Book, cfg: &Cfg, r: &mut Rng, st:
     senders.dedup();
     // configuration requests in which the sender names itself for a role
     for s in &senders {
-        for msg in [json!({"modify_contract": {"executors": [s]}}), json!({"modify_contract": {"executors": [s, cfg.executors.first().cloned().unwrap_or_default()], "approvers": [s]}}), json!({"modify_contract": {"approvers": cfg.approvers.iter().cloned().chain(std::iter::once(s.clone())).collect::<Vec<_>>()}})] {
+        for msg in [json!({"modify_contract": {}}), json!({"modify_contract": {"approvers": null, "executors": null}}), json!({"modify_contract": {"executors": [s]}}), json!({"modify_contract": {"executors": [s, cfg.executors.first().cloned().unwrap_or_default()], "approvers": [s]}}), json!({"modify_contract": {"approvers": cfg.approvers.iter().cloned().chain(std::iter::once(s.clone())).collect::<Vec<_>>()}})] {
             let o = run_probe(w, h, &exec(s, vec![], msg), st, out);
             st.eval("C05", format!("matrix|modify_contract-self-named|{}|{}", role_set(cfg, book, s, ""), o.tag()));
             st.count("C05", "matrix_probes");
